@@ -98,7 +98,7 @@ async fn startup_udp<const N: usize>(config: &ServerConfig<SslConfig>, user_mana
         let inbound = UdpSocket::bind(format!("{}:{}", config.host, config.port)).await?;
         let (tx, mut rx) = mpsc::channel::<(BytesMut, Address, SocketAddr, Session<N>)>(1024);
         let ttl = Duration::from_secs(300);
-        let mut net_map: LruCache<u64, UdpAssociate<N>> = LruCache::with_expiry_duration_and_capacity(ttl, 10240);
+        let mut net_map: LruCache<AssociationKey, UdpAssociate<N>> = LruCache::with_expiry_duration_and_capacity(ttl, 10240);
         let mut cleanup_timer = time::interval(ttl);
         info!("Udp server running => {}|{}|{}:{}", config.protocol, config.cipher, config.host, config.port);
         let mut buf = [0; 0x10000];
@@ -111,7 +111,7 @@ async fn startup_udp<const N: usize>(config: &ServerConfig<SslConfig>, user_mana
                 // p_s_c
                 peer_msg = rx.recv() => {
                     if let Some((content, peer_addr, client_addr, session)) = peer_msg {
-                        net_map.get(&session.client_session_id); // keep alive
+                        net_map.get(&association_key(has_session_id, &session, &client_addr)); // keep alive
                         let mut dst = BytesMut::new();
                         if let Err(e) = SessionCodec::encode(&codec, (content, peer_addr, session), &mut dst) {
                             error!("[udp] encode failed; error={e}")
@@ -130,8 +130,7 @@ async fn startup_udp<const N: usize>(config: &ServerConfig<SslConfig>, user_mana
                             let mut src = BytesMut::from(&buf[..len]);
                             match SessionCodec::<N>::decode(&codec, &mut src) {
                                 Ok(Some((content, peer_addr, session))) => {
-                                    // only 2022 datagrams carry a session id; other ciphers are told apart by the client's address
-                                    let key = if has_session_id { session.client_session_id } else { address_key(&client_addr) };
+                                    let key = association_key(has_session_id, &session, &client_addr);
                                     // an association whose task has ended is replaced; no failure of one session ends the loop
                                     if net_map.get(&key).is_some_and(|assoc| assoc.task.is_finished()) {
                                         net_map.remove(&key);
@@ -142,7 +141,7 @@ async fn startup_udp<const N: usize>(config: &ServerConfig<SslConfig>, user_mana
                                             net_map.remove(&key);
                                         }
                                     } else {
-                                        match UdpAssociateContext::create(key, has_session_id, client_addr, tx.clone()).await {
+                                        match UdpAssociateContext::create(key.0, has_session_id, client_addr, tx.clone()).await {
                                             Ok(assoc) => {
                                                 if let Err(e) = assoc.try_send((content, peer_addr, session)).await {
                                                     error!("[udp] association closed; client={client_addr}, error={e}");
@@ -298,6 +297,19 @@ impl<const N: usize> UdpAssociateContext<N> {
             Some(filter) => filter.validate_packet_id(packet_id, u64::MAX),
             None => true,
         }
+    }
+}
+
+/// An association belongs to one client session of one user. The session id is chosen by the client, so two users can
+/// come to use the same one; each of them has its own keys, its own packet-id window and its own return address.
+type AssociationKey = (u64, Option<[u8; 16]>);
+
+fn association_key<const N: usize>(has_session_id: bool, session: &Session<N>, client_addr: &SocketAddr) -> AssociationKey {
+    if has_session_id {
+        (session.client_session_id, session.user.as_ref().map(|user| user.identity_hash()))
+    } else {
+        // only 2022 datagrams carry a session id; other ciphers are told apart by the client's address
+        (address_key(client_addr), None)
     }
 }
 
